@@ -387,7 +387,7 @@ def synthetic_bfix(res, tier, stats):
         else:
             nerr += 1
             want = PYERR.get(real[1], "?")
-            ok = rep.startswith("err") and ("PyErr." + want) in rep
+            ok = rep.startswith("err") and (("PyErr." + want) in rep or rep.split(" ", 1)[-1].strip() == real[1])
         if not ok:
             mism += 1
             if mism <= 4:
